@@ -38,7 +38,7 @@ PROBES = ["ran_to_completion", "forced_cleanup_deleted_preexisting", "refused_wi
           "relative_workspace", "default_workspace", "input_via_symlinked_ancestor", "cwd_contains_default_name",
           "c_language", "c_header_preprocess", "second_run_other_project", "second_run_incremental", "spawned_subprocess", "graph_output", "javascript_language",
           "inputs_share_base_name", "input_given_with_leading_dotdots", "strict_parse_mode", "non_utf8_source_file",
-          "pwd_is_start_directory", "pwd_left_over_from_launcher", "two_inputs_contain_workspace", "not_quiet", "taint_report_written"]
+          "pwd_is_start_directory", "pwd_left_over_from_launcher", "two_inputs_contain_workspace", "not_quiet", "taint_report_written", "debug_print_stmts", "workspace_below_a_src_directory"]
 # the same check again, smaller, in interpreters started with assertions stripped (python -O / PYTHONOPTIMIZE=1)
 ENV_VARIANTS = [{"name": "python-O", "env": {"PYTHONOPTIMIZE": "1"}, "runs": {'quick': 250, 'thorough': 2500}}]
 TIERS = {
@@ -108,6 +108,8 @@ def gen_knobs(rng, tier):
         "pwd_env": rng.choice(["unset", "unset", "correct", "stale", "stale"]),
         "nested_inputs": rng.random() < 0.2,
         "quiet": rng.random() < 0.6,          # without -q the taint phase writes its report file
+        "debug_print": rng.random() < 0.15,   # -d -p (never quiet): debug output and statement dumps
+        "ws_under_src": rng.random() < 0.2,   # the workspace below a directory that is itself called src (a checkout's src/)
         "tier": tier,
     }
 
@@ -195,6 +197,9 @@ def generate(rng, k):
             inputs.append(p)
         ops.append({"op": "mkfile", "path": "outp/sibling.txt", "content": "next to the workspace\n"})
         ws_opt = "outp/wsroot"
+        if k.get("ws_under_src") and placement == "disjoint":
+            ops.append({"op": "mkfile", "path": "outp/src/main.c", "content": "int main(void) { return 0; }\n"})
+            ws_opt = "outp/src/analysis"
         if placement == "disjoint_preexisting":
             ops.append({"op": "mkfile", "path": f"outp/wsroot/{DEFAULT_WS}/frontend/old.bundle0", "content": "old output\n"})
             ops.append({"op": "mkfile", "path": f"outp/wsroot/{DEFAULT_WS}/user_notes.txt", "content": "user file in workspace\n"})
@@ -241,9 +246,10 @@ def generate(rng, k):
     if k["cwd_in_input"] and inputs and not inputs[0].endswith(".py"):
         cwd = inputs[0]
     run = {"op": "run", "sub": k["sub"], "lang": k["lang"], "force": k["force"], "cwd": cwd, "pwd_env": k.get("pwd_env", "unset"),
-           "quiet": k.get("quiet", True),
+           "quiet": k.get("quiet", True) and not k.get("debug_print"),
            "flags": (["--nomock"] if k["nomock"] else []) + (["-I"] if k["lang"] == "c" and k.get("c_preprocess") else [])
                     + (["--strict-parse-mode"] if k.get("strict") else [])
+                    + (["-d", "-p"] if k.get("debug_print") else [])
                     + ((["--graph", "--enable-p2"] if k.get("graph") and k["sub"] != "lang" else []))}
     if wform == "omitted":
         # default name relative to cwd: the workspace is <cwd>/lian_workspace
@@ -390,6 +396,10 @@ def execute(trace):
                     "flags": op.get("flags", []), "quiet": op.get("quiet", True)}
             if not op.get("quiet", True):
                 hit("not_quiet")
+            if "-p" in op.get("flags", []):
+                hit("debug_print_stmts")
+            if "/src/" in W[len(R):].rsplit("/" + DEFAULT_WS, 1)[0] + "/":
+                hit("workspace_below_a_src_directory")
             argv = lianrun.build_argv(spec, _settings)
             before = fsseam.snapshot(R)
             input_real = [os.path.realpath(os.path.join(cwd_abs, a)) for a in in_args]
